@@ -204,7 +204,7 @@ def gen_part(r, well_typed=False, prim_p=0.4, trees=True):
     if v is not None:
         t["value"] = v
     if r.random() < 0.1:
-        t["label"] = r.choice(["lbl", "x"])
+        t["label"] = r.choice(["lbl", "x", "", 0])
     return t
 
 
